@@ -197,7 +197,7 @@ type v3Client struct {
 func (cl *v3Client) reply() (int, error) {
 	code := 0
 	for {
-		cl.c.SetReadDeadline(time.Now().Add(5 * time.Second))
+		cl.c.SetReadDeadline(time.Now().Add(12 * time.Second)) // longer than the endpoint waits for a limit permit (5 s): a stall is answered, not a harness failure
 		line, err := cl.r.ReadString('\n')
 		if err != nil {
 			return 0, err
@@ -428,7 +428,19 @@ func TestVerif_C03(t *testing.T) {
 				}
 				code, err := cl.cmd("MAIL FROM:<" + v3Senders[id] + ">")
 				if err != nil {
-					t.Fatalf("case %d: MAIL: %v", ci, err)
+					// the endpoint gave no answer and dropped the connection (it does so when it cannot
+					// get a limit permit in time): an observation, not a harness failure
+					stats["mail-unanswered"]++
+					usedSenders[id] = true
+					usedSenders[0] = true
+					cmds = append(cmds, "CMail "+cN(id), "CDrop")
+					replies = append(replies, "RFail", "RNone")
+					mark()
+					cl.c.Close()
+					ended = true
+					sessionEnd()
+					mark()
+					continue
 				}
 				cmds = append(cmds, "CMail "+cN(id))
 				ok := code/100 == 2
@@ -555,11 +567,16 @@ func TestVerif_C03(t *testing.T) {
 		for d := range domains {
 			got := 0
 			for i := 0; i < 3; i++ {
-				ctx, cancel := context.WithTimeout(context.Background(), 20*time.Millisecond)
-				if err := endp.limits.TakeMsg(ctx, ip, d); err == nil {
-					got++
+				// (a refusal is confirmed once: under load the deadline can pass before the limiter is asked)
+				for attempt := 0; attempt < 2; attempt++ {
+					ctx, cancel := context.WithTimeout(context.Background(), 20*time.Millisecond)
+					err := endp.limits.TakeMsg(ctx, ip, d)
+					cancel()
+					if err == nil {
+						got++
+						break
+					}
 				}
-				cancel()
 			}
 			for i := 0; i < got; i++ {
 				endp.limits.ReleaseMsg(ip, d)
